@@ -77,6 +77,10 @@ func workerMain() {
 			os.Exit(3)
 		}
 	}
+	diag := os.Getenv("VH_C16_DIAG") == "1"
+	if diag {
+		runtime.MemProfileRate = 1 // record every allocation: the answer's extra field names the largest one's stack
+	}
 	rd := bufio.NewReaderSize(os.Stdin, 1<<20)
 	w := bufio.NewWriter(os.Stdout)
 	var m0, m1 runtime.MemStats
@@ -96,6 +100,9 @@ func workerMain() {
 			if p {
 				status, out = "panic", strings.NewReplacer("\t", " ", "\n", " ").Replace(msg)
 			}
+			if diag {
+				extra = largestAllocStack()
+			}
 			fmt.Fprintf(w, "%s\t%d\t%s\t%s\n", status, m1.TotalAlloc-m0.TotalAlloc, out, extra)
 			w.Flush()
 		}
@@ -103,6 +110,64 @@ func workerMain() {
 			return
 		}
 	}
+}
+
+// largestAllocStack: function names (innermost first, '>'-separated) of the allocation site
+// with the largest total bytes since the process started (MemProfileRate = 1).
+func largestAllocStack() string {
+	runtime.GC()
+	runtime.GC() // the profile is published two GC cycles after the allocation
+	n, _ := runtime.MemProfile(nil, true)
+	recs := make([]runtime.MemProfileRecord, n+64)
+	n, ok := runtime.MemProfile(recs, true)
+	if !ok {
+		return "profile-unavailable"
+	}
+	var best *runtime.MemProfileRecord
+	for i := range recs[:n] {
+		if best == nil || recs[i].AllocBytes > best.AllocBytes {
+			best = &recs[i]
+		}
+	}
+	if best == nil {
+		return "no-allocation"
+	}
+	frames := runtime.CallersFrames(best.Stack())
+	var names []string
+	for {
+		fr, more := frames.Next()
+		names = append(names, fr.Function)
+		if !more || len(names) > 40 {
+			break
+		}
+	}
+	return strconv.FormatInt(best.AllocBytes, 10) + ":" + strings.Join(names, ">")
+}
+
+// diagnose re-runs one input in a profiling worker and names the largest allocation site.
+func (h *harness) diagnose(entry string, in []byte) string {
+	cmd := exec.Command(h.self)
+	cmd.Env = append(os.Environ(), "VH_C16_WORKER=1", "VH_C16_DIAG=1", "VH_C16_AS="+strconv.FormatUint(asLimit, 10), "VH_C16_SANDBOX="+h.sandbox)
+	cmd.Stdin = strings.NewReader(entry + " " + kit.Hex(in) + "\n")
+	out, err := cmd.Output()
+	if err != nil {
+		return "diagnosis failed: " + err.Error()
+	}
+	f := strings.SplitN(strings.TrimRight(string(out), "\n"), "\t", 4)
+	if len(f) != 4 {
+		return "diagnosis failed: malformed answer"
+	}
+	return f[3]
+}
+
+func causeOf(stack string) string {
+	switch {
+	case strings.Contains(stack, "reflect.MakeMapWithSize") && strings.Contains(stack, "encoding/gob.(*Decoder).decodeMap"):
+		return "gob_map_size" // map element count read from the gob stream
+	case strings.Contains(stack, "encoding/gob."):
+		return "gob_other"
+	}
+	return "unknown"
 }
 
 /* ---------- parent side ---------- */
